@@ -1,7 +1,7 @@
 """C07 families 2+3: label stacks, route distinguishers, VPNv4 and VPNv6 (MP_REACH and MP_UNREACH)."""
 import netaddr
 
-from props.c07 import Family, ip6, ip4, caddr, mask, coq_list, coq_bytes
+from props.c07 import Family, ip6, ip4, caddr, mask, coq_list, coq_bytes, size_targets, fill_sizes
 
 LABELS = [0, 1, 3, 15, 16, 2 ** 20 - 1]
 WITHDRAW_LABEL = 524288
@@ -146,6 +146,17 @@ class Vpn(Family):
                 rs.append(rnd_route(None, [0] if k < .04 else [rng.choice(LABELS), 99] if k < .08 else None,
                                     None, low=rng.random() < .1))
             add(rng.choice(['reach', 'reach', 'unreach']), rs, rnd_nh())
+        # ---- encoded-size boundaries: attribute value length (a route with one label takes
+        # 1 + 3 + 8 + ceil(l/8) octets; l >= 1)
+        for target, ok in size_targets(ctx):
+            for kind in ('reach', 'unreach'):
+                room = target - (3 if kind == 'unreach' else 5 + 8 + bits // 8)
+                rs = [rnd_route(rng.randrange(8 * (k - 13) + 1, 8 * (k - 12) + 1))
+                      for k in fill_sizes(room, range(13, 13 + bits // 8), rng)]
+                add(kind, rs, rnd_nh() if kind == 'reach' else None)
+                cases[-1]['huge'] = target > 60000
+                if not ok:
+                    cases[-1]['unencodable'] = 'attribute value of %d octets' % target
         add('reach', [], rnd_nh())
         c = {'fam': self.name, 'kind': 'unreach', 'v': {'routes': [], 'nh': None}, 'cls': [], 'empty': True}
         cases.append(c)
